@@ -387,7 +387,7 @@ func jobTriples(c *rt.Ctx, prop string, zip bool) {
 		dev := sp.devNames(v)
 		var shapes []batchShape
 		if prop == "C05" && level <= 1 {
-			shapes = []batchShape{{0, 4}, {3, 4}, {4, 5}, {5, 6}, {6, 7}, {64, 65}, {65, 68}, {69, 70}, {131, 132}}
+			shapes = []batchShape{{0, 1}, {1, 2}, {2, 3}, {0, 4}, {3, 4}, {4, 5}, {5, 6}, {6, 7}, {64, 65}, {65, 68}, {69, 70}, {131, 132}}
 		}
 		exp, cause := modelVerify(t, vs, zip)
 		c.Distinct(fmt.Sprint(v), exp || cause != ref.BadLen)
